@@ -6,6 +6,66 @@ props = [json.loads(l) for l in open(os.path.join(HERE, "properties.jsonl"))]
 
 # id -> dict(technique, text, note, ref)
 CLAIMED = {
+ "C01": dict(
+    technique="property-based testing (proptest-driven grammar generator) against an independent two-pass assembler model + ISA encoder",
+    text="Generated well-formed programs over the whole statement grammar (all opcodes, aliases, directives, label operands at the edge of every field's reach incl. wrap-around reach, blocks at x0000 / ending at xFE00 / touching, externals) are assembled with assemble and assemble_debug; the complete address->word|uninitialized map and the label table must equal those of a model that shares no code with the library. Exploration, not proof: thousands (quick) to 150k (thorough) distinct programs, shrunk to a minimal program on failure.",
+    note="The statement list is built through the public AST constructors (parser not involved); the model (harness/src/model/asm.rs, isa.rs) is the trusted base; operands that do not fit a field cannot be constructed and are covered by C05 through the text path.",
+    ref="4/C01"),
+ "C02": dict(
+    technique="property-based testing with fault injection; oracle = set of violated well-formedness conditions computed by an independent model",
+    text="Well-formed generated programs receive 1-3 faults from a 22-entry catalogue (plus statement soup); the model computes the set V of violated conditions; assemble/assemble_debug must succeed iff V is empty, otherwise report a kind in V, and never panic. Every error kind and every exact-boundary layout (xFE00, xFE01, xFFFF, x10000, field reach +-1) is an essential class whose absence invalidates the run.",
+    note="For multi-fault programs V may contain members derived after the first structural fault (these only make the check more lenient); single-fault programs give singleton V.",
+    ref="4/C02"),
+ "C03": dict(
+    technique="property-based testing: model-to-text renderer with randomized surface syntax, round trip through parse_ast, plus metamorphic pairs",
+    text="Statement lists are written as text with random case, spacing, tabs, comments, blank lines, CRLF, colons, labels on own lines, every numeric notation and string escape; parse_ast must return exactly the written statements with spans that cover the nucleus within its line and exact label spans; two independent renderings of an assemblable program must assemble to the same image and label addresses.",
+    note="Identifiers whose Unicode upper-casing is a keyword and labels that lex as registers/hex literals are outside the generator's domain (documented in DESIGN 3.1).",
+    ref="4/C03"),
+ "C04": dict(
+    technique="property-based testing / fuzzing of parse_ast with a no-panic + span-in-bounds oracle (proptest strings, token soup, mutated programs, targeted literals; libFuzzer in the thorough tier)",
+    text="Arbitrary Unicode strings, token soup, character-level mutations of rendered programs and targeted escape/literal edge cases are parsed under catch_unwind; any unwind or an error whose span leaves the input is a violation.",
+    note="Robustness only (no semantic oracle beyond span bounds).",
+    ref="4/C04"),
+ "C05": dict(
+    technique="bounded-exhaustive enumeration of integer literals x notations x field contexts against interval arithmetic; proptest for huge literals",
+    text="Every integer of the stated range (thorough: all of [-70000,140000]; quick: all values within 300 of each power of two and of the 16-bit limits plus a seeded stride sample) in every notation, alone and as operand of 16 statement templates, is accepted iff it fits and then denotes its value; registers 0..300 with leading zeros and 20-40 digit literals likewise.",
+    note="Thorough tier is exhaustive over the property's stated integer range; notation surface (leading zeros, hex digit case) is sampled per value.",
+    ref="4/C05"),
+ "C06": dict(
+    technique="exhaustive enumeration against an independent canonical decoder/encoder (property-based, finite domain)",
+    text="All 65536 words and all ~45k representable instruction values are enumerated: decode must agree with an independent canonical decoder (including the error class), re-encoding gives the word back, and encode/decode of every instruction value round-trips and equals the ISA table encoder.",
+    note="Independent decoder/encoder in harness/src/model/isa.rs is the trusted base.",
+    ref="4/C06"),
+ "C07": dict(
+    technique="exhaustive round trip disassemble -> text -> parse -> assemble over all words at several origins",
+    text="All 65536 words x 4 origins: the disassembled text must reassemble to exactly the word; '.fill' exactly for words below x0200 and non-canonical words; aliases printed by name.",
+    note="Uses the library's parser and assembler for the way back (that is the property); canonicity from the independent decoder.",
+    ref="4/C07"),
+ "C23": dict(
+    technique="property-based testing of symbol-table queries against the model label table",
+    text="Generated programs with mixed-case labels, repeated labels, labels on .end and externals; every label is queried in 5 spellings through lookup_label, get_label_source and rev_lookup_label, the listing is compared as a set, absent names/addresses must give None.",
+    note="ASCII labels only (property scope); a label both declared external and defined at x0000 is not generated (flag unspecified).",
+    ref="4/C23"),
+ "C24": dict(
+    technique="property-based testing of the line<->address map against the renderer's line layout and the model's statement addresses",
+    text="Programs rendered with label-only lines, comments, CRLF, multi-word statements and .external inside/outside blocks; line_iter must equal the model map, be injective, and lookup_line/rev_lookup_line must be inverse on it and None elsewhere (all lines, all image addresses).",
+    note="Line numbers come from the harness renderer (independent of SourceInfo).",
+    ref="4/C24"),
+ "C25": dict(
+    technique="property-based testing of SourceInfo against split-on-newline arithmetic",
+    text="Strings over an alphabet rich in LF/CRLF/CR/whitespace/multi-byte characters; every line index up to count+2 and every character index up to len+10 is queried and compared with an arithmetic model.",
+    note="Whitespace = Rust str::trim semantics (as the property says 'without surrounding whitespace').",
+    ref="4/C25"),
+ "C26": dict(
+    technique="property-based testing with fault injection: span accessors of every assembler/linker error",
+    text="The faulty programs of C02 and failing links (file vs origin-shifted copy) produce errors whose span(), first() and iter() are exercised under catch_unwind; assembly spans must lie inside the source on char boundaries and, for label errors, cover a spelling of an offending label.",
+    note="Offending labels come from the independent assembler model.",
+    ref="4/C26"),
+ "C36": dict(
+    technique="property-based round trip: parse -> Display -> parse on every statement of generated programs",
+    text="Every statement parsed from generated free-form programs (strings restricted to the property's character set) is printed and reparsed; the result must be one statement with equal labels, kind and operand values.",
+    note="Statements come from the library's parser (as the property states).",
+    ref="4/C36"),
  "C35": dict(
     technique="exhaustive enumeration against an arithmetic oracle (property-based, finite domain)",
     text="Every (N, signedness, value) triple - 16 x 2 x 65536 - is evaluated through Offset::new and Offset::new_trunc and compared with an i32 range/extension computation; the domain of the property is finite and is covered completely in both tiers.",
